@@ -118,14 +118,15 @@ def fixture_obs(tier, rnd):
         for j, i in enumerate(sel):
             seg = RF.cat(RF.ck(c, p) for c, p in chunks[last:i])
             parts.append(f"{bytes(seg)!r}")
-            parts.append(f"bytes(RF.ck(b'CVAL', RF.u32(w{j})))")
+            parts.append(f"bytes(RF.ck(b'CVAL', RF.u32(w{cv.index(i)})))")
             last = i + 1
         parts.append(f"{bytes(RF.cat(RF.ck(c, p) for c, p in chunks[last:]))!r}")
         body = f"""
     X = {' + '.join(parts)}
     return cycle(X)
 """
-        obs.append(Ob(f"fixture.{name}", build([U32(f"w{j}") for j in range(len(sel))], body, setup=SETUP),
+        # parameters are named after the ordinal of the CVAL they replace (w3 = 4th stored controller value)
+        obs.append(Ob(f"fixture.{name}", build([U32(f"w{cv.index(i)}") for i in sel], body, setup=SETUP),
                       f"{os.path.basename(path)} with CVAL chunks #{sel} replaced by arbitrary 32-bit words: fixed point after one load/save cycle, saving is pure",
                       group="fixture", shape=f"{os.path.basename(path)} re-emitted chunk by chunk", symbolic=f"{len(sel)} stored controller words over 0..2^32-1", timeout=300))
     return obs
